@@ -93,6 +93,12 @@ fn alpha_meas(q: usize) -> Vec<Gate> {
         }
     }
     a.push(Gate::new(CZ, vec![0, q - 1]));
+    // relabelling gates before a measurement: the qubit -> output position table is no longer monotone
+    a.push(Gate::new(SWAP, vec![0, q - 1]));
+    if q >= 3 {
+        a.push(Gate::new(SWAP, vec![1, 2]));
+        a.push(Gate::new(PostSelect, vec![1]));
+    }
     a
 }
 
@@ -299,7 +305,7 @@ pub fn run(rep: &mut Report) {
         rep.absorb(&name.replace("rules", "simplifiers"), "every pub fn of simplify.rs on the same diagrams, all 8 assignments, both back ends", true, None, t0, stats);
     }
     // (c) circuits with measurements
-    for (q, d) in if quick { vec![(2usize, 3usize)] } else { vec![(2, 4), (3, 3)] } {
+    for (q, d) in if quick { vec![(2usize, 3usize), (3, 2)] } else { vec![(2, 4), (3, 3)] } {
         let t0 = Instant::now();
         let alpha = alpha_meas(q);
         let n = circuit_count(alpha.len(), d);
